@@ -121,7 +121,7 @@ def account(ck, events, verdicts):
             by_case[e["case"]].append(e)
     for case, evs in by_case.items():
         seen = sorted(t for e in evs for t in e["threads"])
-        if seen != list(range(1, 18)):
+        if seen != list(range(1, 18)) + [33, 65]:
             raise vlib.ToolError("case %s: thread counts %s" % (case, seen))
         if len(evs) > 1:
             groups.setdefault((evs[0]["kern"], "thread-dependence"), []).extend(e["id"] for e in evs)
@@ -138,7 +138,7 @@ def account(ck, events, verdicts):
         if kind == "MISMATCH":
             groups.setdefault((kern, cls), []).append(i)
         elif e["ev"] == "call":
-            ck.sample({"kern": kern, "class": e.get("cls"), "threads": "1..17 identical",
+            ck.sample({"kern": kern, "class": e.get("cls"), "threads": "1..17, 33, 65 identical",
                        "digest": e.get("digest"), "verdict": cls}, limit=8)
     for (site, cls), ids in groups.items():
         first = by_id[ids[0]]
@@ -179,7 +179,7 @@ def run(tier):
     per_kernel, sampled = account(ck, events, verdicts)
     ck.extra["events_per_kernel"] = dict(per_kernel)
     ck.extra["events_sampled_comparison"] = sampled
-    ck.extra["thread_counts"] = "1..17 (every case; identical outputs required)"
+    ck.extra["thread_counts"] = "1..17, 33, 65 (every case; identical outputs required)"
     ck.extra["max_domain"] = "2^14" if tier == "thorough" else "2^12 (+ one 2^13 transform)"
     ck.notes.append("ifft / coset_ifft of more than n values have no mathematical definition; "
                     "judged against the code's `resize` semantics (verdict tag resize-semantics)")
